@@ -80,7 +80,7 @@ GenApiAny ==
          \/ ChildSuspend(c) /\ Api([a |-> "ChildSuspend", c |-> c, p |-> parent[c]])
          \/ ChildUnsuspend(c) /\ Api([a |-> "ChildUnsuspend", c |-> c, p |-> parent[c]])
     \/ "map" \in Ops /\ \E c \in Sub :
-         /\ exists[c] /\ ChildMap(c)
+         /\ (exists[c] \/ c \in Foreign) /\ ChildMap(c)
          /\ Api([a |-> "ChildMap", c |-> c, p |-> parent[c],
                  in_parent |-> "0", for_child |-> "m" \o c])
     \/ "remove" \in Ops /\ \E c \in Sub :
